@@ -7,7 +7,7 @@ mod history;
 mod mirror;
 mod nogood;
 
-use simcore::cli::{cmd_replay, cmd_run, Dyn};
+use simcore::cli::{cmd_dump, cmd_replay, cmd_run, Dyn};
 
 fn lookup(scenario: &str, property: &str) -> Option<Box<dyn Dyn>> {
     match (scenario, property) {
@@ -27,6 +27,7 @@ fn main() {
     let code = match args.get(1).map(|s| s.as_str()) {
         Some("run") => cmd_run("libsim", &args[2..], &lookup),
         Some("replay") => cmd_replay(&args[2..], &lookup),
+        Some("dump") => cmd_dump("libsim", &args[2..], &lookup),
         Some("selftest") => cmd_selftest(),
         _ => {
             eprintln!("usage: libsim run|replay|selftest ...");
